@@ -862,7 +862,7 @@ def run(ctx, args):
         part_eviction(ctx, 60 if quick else 1500)
         for prog in FIXED_PROGRAMS:
             compare_runs(ctx, prog)
-        for i in range(80 if quick else 1800):
+        for i in range(60 if quick else 1800):
             compare_runs(ctx, gen_program(ctx.rng, ctx.rng.choice([3, 6, 10])))
     finally:
         gc.set_threshold(*state[1])
